@@ -14,7 +14,7 @@ func zzOperate(rl *Shell, buf []rune, pos int, keys []byte) (after []rune, reg [
 	script.OnWait = func() {
 		switch wait {
 		case 0:
-			rl.line.Set(buf...)
+			rl.line.Set(zzCopy(buf)...)
 			rl.cursor.Set(pos)
 			rl.Keymap.SetMain(keymap.ViCommand)
 			rl.cursor.CheckCommand()
